@@ -301,7 +301,14 @@ impl<W: WriteColor> SearchWorker<W> {
 
         let bin = self.config.preprocessor.as_ref().unwrap();
         let mut cmd = std::process::Command::new(bin);
-        cmd.arg(path).stdin(Stdio::from(File::open(path)?));
+        // A relative path that starts with a `-` would be taken for an option
+        // by the command.
+        if path.is_relative() && path.to_string_lossy().starts_with('-') {
+            cmd.arg(Path::new(".").join(path));
+        } else {
+            cmd.arg(path);
+        }
+        cmd.stdin(Stdio::from(File::open(path)?));
 
         let mut rdr = self.command_builder.build(&mut cmd).map_err(|err| {
             io::Error::new(
